@@ -36,10 +36,14 @@ import re
 from asyncio import CancelledError
 from binascii import unhexlify
 
+import ipv8.bootstrapping.dispersy.bootstrapper as _dispersy_mod
+import ipv8.bootstrapping.udpbroadcast.bootstrapper as _bcast_mod
 from ipv8.attestation.identity.community import IdentityCommunity, IdentitySettings
 from ipv8.attestation.identity.payload import RequestMissingPayload
 from ipv8.attestation.wallet.community import AttestationCommunity, AttestationSettings
 from ipv8.attestation.wallet.primitives.structs import BonehPrivateKey
+from ipv8.bootstrapping.dispersy.bootstrapper import DispersyBootstrapper
+from ipv8.bootstrapping.udpbroadcast.bootstrapper import HDR_ANNOUNCE, UDPBroadcastBootstrapper
 from ipv8.community import Community
 from ipv8.dht.community import DHTCommunity
 from ipv8.dht.discovery import DHTDiscoveryCommunity
@@ -168,6 +172,66 @@ class TapTunnelWorld(_TapMixin, TunnelWorld):
 
 
 # ======================================================================================================================
+# seams of the bootstrappers: the broadcast socket and the DNS resolver
+# ======================================================================================================================
+
+STUB_DNS = {"tracker.c11.test": "2.2.2.2"}       # every other name does not resolve
+_BCAST_REC: list = [None]                        # recorder of the execution in progress
+
+
+def _stub_gethostbyname(host: str) -> str:
+    if host in STUB_DNS:
+        return STUB_DNS[host]
+    import socket as _socket
+    raise _socket.gaierror(-2, "Name or service not known")
+
+
+class FakeBroadcastSocket:
+    """
+    What UDPBroadcastBootstrapper gets from socket(AF_INET, SOCK_DGRAM): never touches the OS.  The loop's
+    create_datagram_endpoint(sock=...) turns it into a FakeTransport (owner = node that opened it); sendto() after
+    the unload mark is reported to the recorder (a beacon is 65535 sends: only the first few are logged).
+    """
+
+    def __init__(self, *a) -> None:  # noqa: ANN002
+        self.owner = CURRENT_NODE.get()
+        self.sent = 0
+        self.sent_after = 0
+
+    def setsockopt(self, *a) -> None:  # noqa: ANN002
+        pass
+
+    def bind(self, addr) -> None:  # noqa: ANN001
+        pass
+
+    def getsockname(self):  # noqa: ANN201
+        return ("0.0.0.0", 0)
+
+    def fileno(self) -> int:
+        return -1
+
+    def close(self) -> None:
+        pass
+
+    def _closed(self, loop) -> bool:  # noqa: ANN001
+        return any(t.closed for t in loop.transports if getattr(t.protocol, "_socket", None) is self)
+
+    def sendto(self, data, addr) -> None:  # noqa: ANN001
+        rec = _BCAST_REC[0]
+        if rec is not None and rec.marked is not None and self.owner is rec.nut:
+            if self._closed(rec.loop):
+                raise OSError(9, "Bad file descriptor")
+            self.sent_after += 1
+            if self.sent_after <= 3:
+                rec.log.append(("send", "broadcast-socket", f"to {addr[0]}:{addr[1]} ({len(data)} bytes)"))
+        self.sent += 1
+
+
+_bcast_mod.socket = FakeBroadcastSocket
+_dispersy_mod.gethostbyname = _stub_gethostbyname
+
+
+# ======================================================================================================================
 # recorder
 # ======================================================================================================================
 
@@ -181,6 +245,7 @@ class Rec:
         self.marked: int | None = None
         self.outside_mark = 0
         self.probe_runs: list[str] = []
+        self.nut = None                  # node under test (set by run_one)
         self.prefix: bytes | None = None # only sends with this community prefix are the overlay's (shared endpoint)
 
     def on_send(self, dst, data: bytes) -> None:  # noqa: ANN001
@@ -275,6 +340,7 @@ class Ctx:
         self.rec = Rec(w.loop)
         self.x: dict = {}          # scratch shared by the script's actions
         self.task_prefixes: tuple | None = None   # set when other overlays share the node: only these names count
+        self.skip_timers = False                  # set when a service ticker (not the overlay's) sleeps on the node
         self.harness_tasks: list = []
 
     @property
@@ -334,6 +400,10 @@ class Scenario:
     def children(self, ctx: Ctx) -> list:
         """Overlays the overlay under test has created itself and therefore has to take down with it."""
         return []
+
+    def outside_payloads(self, ctx: Ctx) -> list[bytes]:
+        """What arrives, after the unload, on every socket the node still has open."""
+        return [BT_PAYLOAD]
 
     quiesce_after: float | None = None      # seconds after the late traffic at which quiesce() is called
 
@@ -728,6 +798,128 @@ class ServiceScenario(Scenario):
             ctx.call("P", o.walk_to, ctx.nut.address)
 
 
+BOOT_MID = tuple(f"mid{j}" for j in range(8))     # unload j = 0..7 loop iterations into every event of a bootstrap
+
+
+def _make_bootstrapper(kind: str, tracker: tuple):  # noqa: ANN202
+    if kind == "dispersy-ip":
+        return DispersyBootstrapper(ip_addresses=[tracker], dns_addresses=[])
+    if kind == "dispersy-dns":
+        return DispersyBootstrapper(ip_addresses=[], dns_addresses=[("tracker.c11.test", tracker[1]),
+                                                                    ("unresolvable.c11.test", 7)])
+    return UDPBroadcastBootstrapper()
+
+
+class BootstrapScenario(Scenario):
+    """
+    A fresh overlay with one shipped bootstrapper and no peers: bootstrap() (initialize + get_addresses + walk), a
+    beacon arriving on the broadcast socket, a walker step, 31 s of timers and a second bootstrap after the
+    bootstrap timeout.  B plays the tracker / the neighbour on the LAN.  Unload lands at every event and (mid0..7)
+    at every loop iteration of every event, i.e. anywhere inside bootstrapper.initialize().
+    """
+
+    def __init__(self, kind: str) -> None:
+        self.kind = kind
+        self.nut = "A"
+        self.name = f"Bootstrap/{kind}/direct"
+        self.label = f"TrivialCommunity+{type(_make_bootstrapper(kind, ('2.2.2.2', 1002))).__name__}"
+
+    def variants(self, thorough: bool = False) -> tuple:
+        return (*VARIANTS[:2], *BOOT_MID)
+
+    def build(self, seed: int) -> Ctx:
+        ctx = _plain_world(self, seed, TrivialCommunity, "A", names="AB")
+        ctx.ov_by["A"].bootstrappers = [_make_bootstrapper(self.kind, tuple(ctx.nodes["B"].address))]
+        return ctx
+
+    def outside_payloads(self, ctx: Ctx) -> list[bytes]:
+        prefix = ctx.ov.get_prefix()
+        return [HDR_ANNOUNCE + prefix, prefix + bytes([246]) + b"\x00" * 8, BT_PAYLOAD]
+
+    def phases(self) -> list[tuple]:
+        def bootstrap(c: Ctx) -> None:
+            c.call("A", c.ov_by["A"].bootstrap)
+
+        def beacon(c: Ctx) -> None:
+            for t in c.w.loop.transports:
+                if t.owner is c.nodes["A"] and not t.closed:
+                    tok = CURRENT_NODE.set(t.owner)
+                    try:
+                        t.inject(HDR_ANNOUNCE + c.ov_by["A"].get_prefix(), tuple(c.nodes["B"].address))
+                    finally:
+                        CURRENT_NODE.reset(tok)
+
+        def step(c: Ctx) -> None:
+            c.call("A", c.ov_by["A"].get_new_introduction)
+        return [("bootstrap", bootstrap, 1.0), ("beacon-on-broadcast-socket", beacon, 1.0), ("walker-step", step, 1.0),
+                ("idle", None, 31.0), ("bootstrap-again", bootstrap, 1.0)]
+
+    def stimulate(self, ctx: Ctx) -> None:
+        ctx.call("B", ctx.ov_by["B"].walk_to, ctx.nut.address)
+
+
+class BootstrapServiceScenario(Scenario):
+    """
+    The same through a real ipv8_service.IPv8: one overlay configured with a DispersyBootstrapper (literal IP + DNS
+    names) and a UDPBroadcastBootstrapper, `bootstrap` in on_start and a RandomWalk that bootstraps on its first
+    ticks (no peers); unloaded with IPv8.unload_overlay().
+    """
+
+    nut = "S"
+    name = "Bootstrap/all/IPv8-service"
+    label = "TrivialCommunity+bootstrappers@IPv8"
+    quiesce_after = 30.0
+
+    def variants(self, thorough: bool = False) -> tuple:
+        return (*VARIANTS[:2], *BOOT_MID)
+
+    def build(self, seed: int) -> Ctx:
+        from base64 import b64encode
+
+        from ipv8_service import IPv8
+
+        from .. import fixtures
+        w = TapWorld(("c11", self.name, seed))
+        ctx = Ctx(w, "S", self.label)
+        s_node = w.add_node("S", seed % 12)
+        p_node = w.add_node("P", (seed + 1) % 12)
+        tracker = tuple(p_node.address)
+        config = {
+            "interfaces": [], "working_directory": ".", "walker_interval": 0.5, "logger": {"level": "CRITICAL"},
+            "keys": [{"alias": "my peer", "file": None,
+                      "bin": b64encode(fixtures.private_key(seed % 12, "curve25519").key_to_bin()).decode()}],
+            "overlays": [{"class": "TrivialCommunity", "key": "my peer", "initialize": {}, "on_start": [("bootstrap",)],
+                          "walkers": [{"strategy": "RandomWalk", "peers": 20, "init": {"timeout": 3.0}}],
+                          "bootstrappers": [
+                              {"class": "DispersyBootstrapper",
+                               "init": {"ip_addresses": [tracker], "dns_addresses": [("tracker.c11.test", tracker[1]),
+                                                                                     ("unresolvable.c11.test", 7)],
+                                        "bootstrap_timeout": 30.0}},
+                              {"class": "UDPBroadcastBootstrapper", "init": {"bootstrap_timeout": 30.0}}]}],
+        }
+        tap = TapEndpoint(s_node.endpoint)
+        service = s_node.run(IPv8, config, endpoint_override=tap, extra_communities={"TrivialCommunity": TrivialCommunity})
+        s_node.my_peer = service.keys["my peer"]
+        s_node.my_peer.address = s_node.address
+        ov = service.overlays[0]
+        ov.my_estimated_wan = s_node.address
+        ov.my_estimated_lan = s_node.address
+        s_node.overlays.append(ov)
+        s_node.taps[id(ov)] = tap
+        ctx.x["service"] = service
+        ctx.ov_by = {"S": ov, "P": p_node.add_overlay(TrivialCommunity)}
+        ctx.skip_timers = True
+        return ctx
+
+    phases = ServiceScenario.phases
+    unload_awaitable = ServiceScenario.unload_awaitable
+    quiesce = ServiceScenario.quiesce
+    outside_payloads = BootstrapScenario.outside_payloads
+
+    def stimulate(self, ctx: Ctx) -> None:
+        ctx.call("P", ctx.ov_by["P"].walk_to, ctx.nut.address)
+
+
 BONEH_SK = BonehPrivateKey.unserialize(unhexlify("01064c65dcb113f901064228da3ea57101064793a4f9c77901062b083e"
                                                  "8690fb0106408293c67e9f010601d1a9d3744901030f4243"))
 
@@ -844,6 +1036,8 @@ def all_scenarios() -> list[Scenario]:
         TunnelOnStatisticsEndpoint("X"), TunnelOnStatisticsEndpoint("O"), TunnelOnStatisticsEndpoint("R", quick=False),
         HiddenScenario("O"), HiddenScenario("X"), HiddenScenario("R", quick=False),
         ServiceScenario(0), ServiceScenario(1), ServiceScenario(2),
+        BootstrapScenario("dispersy-ip"), BootstrapScenario("dispersy-dns"), BootstrapScenario("udpbroadcast"),
+        BootstrapServiceScenario(),
         IdentityScenario("A"), IdentityScenario("B"),
         WalletScenario("A", quick=False), WalletScenario("B"), WalletScenario("C"),
     ]
@@ -913,6 +1107,7 @@ def events(ctx: Ctx, scn: Scenario, mid: tuple | None = None):  # noqa: ANN201
 
 def reference_run(scn: Scenario, seed: int) -> tuple[list, dict]:
     """The fault-free run: its event list and one valid datagram per message id for every destination node."""
+    _BCAST_REC[0] = None
     ctx = scn.build(seed)
     try:
         evs = list(events(ctx, scn))
@@ -962,7 +1157,7 @@ def pending_of(ctx: Ctx) -> tuple[list[str], list[str]]:
                    and PROBE_NAME not in t.get_name()
                    and (ctx.task_prefixes is None or t.get_name().startswith(ctx.task_prefixes)))
     timers = []
-    for h in ([] if ctx.task_prefixes is not None else loop._scheduled):  # noqa: SLF001
+    for h in ([] if ctx.task_prefixes is not None or ctx.skip_timers else loop._scheduled):  # noqa: SLF001
         if h._cancelled or h._context.get(CURRENT_NODE) is not nut:  # noqa: SLF001
             continue
         cb = h._callback  # noqa: SLF001
@@ -1056,12 +1251,12 @@ def switch_off_peers(ctx: Ctx) -> None:
     loop.settle()
 
 
-def _outside_arrives(ctx: Ctx, transport) -> None:  # noqa: ANN001
+def _outside_arrives(ctx: Ctx, transport, data: bytes = BT_PAYLOAD, src: tuple = OUTSIDE) -> None:  # noqa: ANN001
     rec = ctx.rec
     prev = rec.via
-    rec.via = "exit-socket"
+    rec.via = "exit-socket" if type(transport.protocol).__name__ == "TunnelProtocol" else "outside-socket"
     try:
-        transport.protocol.datagram_received(BT_PAYLOAD, OUTSIDE)
+        transport.protocol.datagram_received(data, src)
     finally:
         rec.via = prev
 
@@ -1082,6 +1277,8 @@ def run_one(scn_name: str, k: int, variant: str, seed: int, thorough: bool):  # 
 
     try:
         instrument(ctx)
+        ctx.rec.nut = ctx.nut
+        _BCAST_REC[0] = ctx.rec
         mid_j = int(variant[3:]) if variant.startswith("mid") else None
         gen = events(ctx, scn, (k, mid_j) if mid_j is not None and k > 0 else None)
         done = []
@@ -1196,7 +1393,8 @@ def run_one(scn_name: str, k: int, variant: str, seed: int, thorough: bool):  # 
             if t.owner is nut and not t.closed:
                 tok = CURRENT_NODE.set(nut)
                 try:
-                    loop.io_event(_outside_arrives, ctx, t)
+                    for payload in scn.outside_payloads(ctx):
+                        loop.io_event(_outside_arrives, ctx, t, payload, peer_addr if payload[:1] != b"d" else OUTSIDE)
                 finally:
                     CURRENT_NODE.reset(tok)
         w.flush()
@@ -1556,7 +1754,7 @@ def run(ctx: core.Ctx) -> core.Report:
     seen_keys: dict = {}
     obs_set = set()
     execs = 0
-    rank = {v: i for i, v in enumerate((*VARIANTS, *MID_VARIANTS))}
+    rank = {v: i for i, v in enumerate((*VARIANTS, *(f"mid{j}" for j in range(16))))}
     for scn_name, k, variant, v, obs in sorted(res, key=lambda r: (r[0], r[1], rank[r[2]])):
         execs += 1
         if obs is not None:
